@@ -481,7 +481,7 @@ func c12(ctx *run.Ctx, raceOnly bool) {
 		}
 	}
 	// --- random larger scenarios, worker independence ---
-	nRand := ctx.Pick(24, 400)
+	nRand := ctx.Pick(48, 400)
 	if raceOnly {
 		nRand = ctx.Pick(30, 120)
 	}
